@@ -80,8 +80,13 @@ def _case(draw):
         if draw(st.integers(0, 9)) == 0:
             extra.append({"k": "mol", "t": [["H", 2]], "q": 0, "s": False, "l": "", "x": draw(st.sampled_from(["*", "c-", "l-"]))})
         for sym in draw(st.lists(st.sampled_from(M.GAS_ELEMENTS), min_size=1, max_size=4, unique=True)):
-            for q in draw(st.lists(st.sampled_from([0, 1, 2, -1]), min_size=1, max_size=3, unique=True)):
+            for q in draw(st.lists(st.sampled_from([0, 1, 2, -1, -2, -3]), min_size=1, max_size=4, unique=True)):
                 extra.append({"k": "mol", "t": [[sym, 1]], "q": q, "s": False, "l": ""})
+        if draw(st.integers(0, 3)) == 0:
+            # a full ladder of charge states of one carrier (grain charging, PAH / carbon-chain anions): X++ ... X---
+            carrier = draw(st.sampled_from([[["C", 6]], [["C", 60]], [["H", 1]], [["O", 2]]]))
+            for q in range(draw(st.integers(-3, -1)), draw(st.integers(0, 2)) + 1):
+                extra.append({"k": "mol", "t": [list(t) for t in carrier], "q": q, "s": False, "l": ""})
         if any(sp["k"] == "grain" for sp in pool) and not any(sp.get("s") for sp in pool) and draw(st.integers(0, 1)) == 0:
             # dust of a second size group next to group 0 (GRAIN0, GRAIN1): grains are tracked as "elements" too
             extra.append({"k": "grain", "g": 1, "q": 0})
